@@ -19,3 +19,7 @@ open SSVerif.Fsg
 #print axioms C13_bestLogProb_sound
 #print axioms C13_bestLogProb_total
 #print axioms C13_bestLogProb_iff
+#print axioms C13_read_wf
+#print axioms C13_kwMatch_iff
+#print axioms C13_wordAdd_spec
+#print axioms C13_arcsOf_spec
